@@ -205,8 +205,8 @@ func pathSpaces(g *vlib.G) []graphSpace {
 		{n: 2, directed: true, weighted: true}, {n: 3, directed: true, weighted: true},
 		{n: 4, directed: true},
 		{n: 5},
-		{n: 5, weighted: true, stride: vlib.Pick(g, 61, 1), offset: vlib.Pick(g, 3, 0), rotate: true},
-		{n: 4, directed: true, weighted: true, stride: vlib.Pick(g, 997, 7), offset: 4},
+		{n: 5, weighted: true, rotate: true},
+		{n: 4, directed: true, weighted: true, stride: vlib.Pick(g, 2, 1), offset: vlib.Pick(g, 1, 0), rotate: true},
 	}
 	return sp
 }
